@@ -12,11 +12,13 @@ def gather(ctx, thorough):
     muts = []
     stats = {}
     cfgs = [("nc2", "NeoVM_C14.cfg", {}),
-            ("nc3", "NeoVM_C14.cfg", {"NC": "3", "HeapMode": '"all"' if thorough else '"uniform"', "WithMutations": "FALSE"}),
+            ("nc3", "NeoVM_C14.cfg", {"NC": "3", "HeapMode": '"all"' if thorough else '"arr"', "WithMutations": "FALSE"}),
             ("chain", "NeoVM_C14.cfg", {"NC": "13", "HeapMode": '"chain"', "WithMutations": "FALSE",
                                         "ChainLens": "{1, 2, 3, 9, 10, 11, 12, 13}" if thorough else "{10, 11, 12}"})]
     for name, cfg, consts in cfgs:
-        r, heaps, m = nv.tlc_rows(ctx, cfg, consts or None, workers=None)
+        r, heaps, m = nv.tlc_rows(ctx, cfg, consts or None, workers=None, coverage=(thorough and name == "nc2"))
+        if r.status == "ok" and thorough and name == "nc2":
+            ctx.vacuous(r, ["Serialize", "Native", "NotifyOp", "Deserialize", "Mutate"])
         if r.status != "ok":
             ctx.infra("TLC did not verify the design model %s: %s %s %s" % (name, r.status, r.violated, r.errors[:2]))
             continue
@@ -63,7 +65,7 @@ def run(ctx):
             ops.append("native")
         fast.append(nv.heap_item(r["id"], r, ops))
     nproc = min(vf.NCPU, 8)
-    res, deaths = nv.run_children_parallel(ctx, binary, "TestVerifShapes", fast, "fast", 600, nproc)
+    res, deaths = nv.run_children_parallel(ctx, binary, "TestVerifShapes", fast, "fast", 300, nproc)
     ctx.log("fast batch: %d heaps, %d results, %d child deaths" % (len(fast), len(res), deaths))
     # predicted slow / fatal items: seeded sample, one small child each
     n_slow, n_crash = (200, 48) if ctx.thorough else (24, 12)
@@ -75,9 +77,9 @@ def run(ctx):
         pick_crash += ctx.rng.sample(by_class[cls], min(len(by_class[cls]), max(2, n_crash // max(1, len(by_class)))))
     pick_slow = ctx.rng.sample(slow_ser, min(len(slow_ser), n_slow))
     items = [nv.heap_item(r["id"], r, ["native"]) for r in pick_crash]
-    res2, deaths2 = nv.run_children_parallel(ctx, binary, "TestVerifShapes", items, "crash", 300, min(nproc, 6))
+    res2, deaths2 = nv.run_children_parallel(ctx, binary, "TestVerifShapes", items, "crash", 300, min(nproc, 6), max_deaths=1000)
     items = [nv.heap_item(r["id"], r, ["ser"]) for r in pick_slow]
-    res3, deaths3 = nv.run_children_parallel(ctx, binary, "TestVerifShapes", items, "slow", 600, nproc)
+    res3, deaths3 = nv.run_children_parallel(ctx, binary, "TestVerifShapes", items, "slow", 300, nproc, max_deaths=1000)
     ctx.log("predicted-fatal marshalling: %d of %d heaps run, %d child deaths; predicted-slow serialization: %d of %d run, %d deaths"
             % (len(pick_crash), len(crash_nat), deaths2, len(pick_slow), len(slow_ser), deaths3))
     rest = []
@@ -87,7 +89,7 @@ def run(ctx):
         done_s = {r["id"] for r in pick_slow}
         rest = [nv.heap_item(r["id"], r, ["native"]) for r in crash_nat if r["id"] not in done_c] + \
                [nv.heap_item(r["id"], r, ["roundtrip"]) for r in slow_ser if r["id"] not in done_s]
-        r4, d4 = nv.run_children_parallel(ctx, binary, "TestVerifShapes", rest, "rest", 900, nproc)
+        r4, d4 = nv.run_children_parallel(ctx, binary, "TestVerifShapes", rest, "rest", 300, nproc)
         res2 += r4
         ctx.log("held-back heaps: %d run, %d child deaths" % (len(rest), d4))
     results = res + res2 + res3
@@ -121,7 +123,8 @@ def run(ctx):
                     drift.append("serialized bytes of %s differ from Enc(): %s vs %s" % (nv.heap_text(r), o.get("hex"), exp_hex))
         elif op == "native":
             if dead:
-                bad = "BuildParamToNative:cycle-at-non-first-element:%s:%s" % (nv.marshal_loop_kinds(r["cells"]), out) \
+                # stack overflow, or (on a loaded machine) the time limit while the stack grows: one label
+                bad = "BuildParamToNative:cycle-at-non-first-element:%s:unbounded-recursion" % nv.marshal_loop_kinds(r["cells"]) \
                     if r["cyc"] and "non-first" in cls else "BuildParamToNative:%s:%s" % (cls, out)
             elif r["cyc"] and out != "err":
                 bad = "BuildParamToNative:%s:accepted" % cls
@@ -139,6 +142,13 @@ def run(ctx):
                       {"cells": [x[0]["cells"] for x in viol[key][:10]], "op": o["op"]})
     for d in drift[:5]:
         ctx.infra("MODEL-DRIFT: " + d)
+    # vacuity: every kind of operation was really executed, on cyclic and on acyclic heaps, and the decoder saw mutations
+    ops_seen = {(o["op"], byid[o["id"]]["cyc"]) for o in results}
+    missing = [x for x in (("roundtrip", False), ("roundtrip", True), ("native", False), ("native", True), ("detect", True)) if x not in ops_seen]
+    if missing and not ctx.replay_in:
+        ctx.infra("vacuous run: no execution of %s" % missing)
+    if not muts and not ctx.replay_in:
+        ctx.infra("vacuous run: no mutated byte strings generated")
 
     # ---- byte strings (decoder)
     n_bytes = 0
@@ -157,7 +167,7 @@ def run(ctx):
     for n in (1023, 1024, 1025, 1026, 1027, 20000, 400000):
         deep[len(bitems)] = n
         bitems.append({"id": len(bitems), "hex": "8001" * (n - 1) + "8000"})
-    bres, bdeaths = nv.run_children_parallel(ctx, binary, "TestVerifDeserialize", bitems, "bytes", 600, nproc, key="items")
+    bres, bdeaths = nv.run_children_parallel(ctx, binary, "TestVerifDeserialize", bitems, "bytes", 300, nproc, key="items")
     bdrift = 0
     for o in bres:
         n_bytes += 1
@@ -202,7 +212,7 @@ def finish(ctx, stats, n, extra):
     cov = {"states": ctx.stats["states"], "transitions": ctx.stats["transitions"], "traces_validated_against_impl": n, "tlc_runs": stats}
     cov.update(extra)
     ctx.finish("model_checking", cov, [
-        "heaps of <=3 cells x <=2 slots (all kinds; quick: 3 cells with one kind per heap) plus chains of up to 13 nested containers; leaves are the integer 1, map keys 1..2",
+        "heaps of <=3 cells x <=2 slots (all kinds; quick: 3 cells of arrays only) plus chains of up to 13 nested containers; leaves are the integer 1, map keys 1..2",
         "depth limit: values with at most MAX_STRUCT_DEPTH nested containers must round-trip; deeper acyclic values may be accepted or refused (only crashes count)",
         "accept/reject and decoded value of mutated byte strings are compared with the model's decoder; a disagreement is reported as model drift (exit 2), only a crash/hang is a violation of the statement",
         "heaps on which the as-coded model predicts a fatal or slow run are sampled per seed (every structural class represented); all others are executed",
